@@ -4,7 +4,7 @@ from lib import vlib
 H = vlib.HARNESS
 TS = vlib.TEAMSCHED
 MAIN = os.path.join(H, 'c12_sched.cpp')
-LIBSRC = ['ntt_goldilocks.cpp', 'poseidon_goldilocks.cpp', 'goldilocks_base_field.cpp']
+LIBSRC = ['ntt_goldilocks.cpp', 'poseidon_goldilocks.cpp', 'goldilocks_base_field.cpp', 'goldilocks_cubic_extension.cpp']
 WRAP = '-Wl,--wrap=memcpy,--wrap=memset,--wrap=memmove,--wrap=malloc,--wrap=free'
 
 
@@ -48,9 +48,9 @@ def explore(ctx):
     # free-running pass: any ThreadSanitizer report is a violation
     import subprocess
     env = vlib.harness_env()
-    env['TSAN_OPTIONS'] = 'halt_on_error=0:exitcode=0:report_signal_unsafe=0'
+    env['TSAN_OPTIONS'] = 'halt_on_error=1:exitcode=66:report_signal_unsafe=0'  # stop at the first report: a racy run may not terminate
     try:
-        r = subprocess.run([ctx.bins['c12_free'], '--tier', ctx.tier], capture_output=True, text=True, timeout=max(60, ctx.time_left()), env=env, errors='replace')
+        r = subprocess.run([ctx.bins['c12_free'], '--tier', ctx.tier, '--lits', ctx.lits_arg()], capture_output=True, text=True, timeout=max(60, ctx.time_left()), env=env, errors='replace')
         n = r.stderr.count('WARNING: ThreadSanitizer: data race')
         if 'REENTRANCY-MISMATCH' in r.stdout:
             ctx.viols.append({'sig': 'C12.reentrancy-mismatch', 'case': 'free-running', 'detail': [l for l in r.stdout.split('\n') if l.startswith('REENTRANCY')][0], 'step': 'c12_free', 'noreplay': True})
@@ -58,7 +58,7 @@ def explore(ctx):
             if line.startswith('STAT free_running_executions'):
                 ctx.stats['free_running_executions'] = int(line.split()[2])
         ctx.stats['tsan_reports'] = n
-        if r.returncode != 0 and n == 0:
+        if r.returncode not in (0, 66) and n == 0:
             ctx.uncovered.append('free-running ThreadSanitizer pass did not run to completion (rc=%d): %s' % (r.returncode, r.stderr[-200:]))
         if n:
             first = r.stderr[r.stderr.find('WARNING: ThreadSanitizer'):][:1500]
@@ -68,7 +68,11 @@ def explore(ctx):
             if m:
                 loc = m.group(1)[:60]
             ctx.viols.append({'sig': 'C12.tsan-race.' + re.sub(r'[^A-Za-z0-9_:]', '_', loc), 'case': 'free-running', 'detail': first.replace('\n', ' | ')[:600], 'step': 'c12_free', 'noreplay': True})
-    except subprocess.TimeoutExpired:
-        ctx.incomplete.append('free-running ThreadSanitizer pass hit the time limit')
+    except subprocess.TimeoutExpired as e:
+        err = e.stderr.decode(errors='replace') if isinstance(e.stderr, bytes) else (e.stderr or '')
+        if 'WARNING: ThreadSanitizer: data race' in err:
+            ctx.viols.append({'sig': 'C12.tsan-race.timeout', 'case': 'free-running', 'detail': err[err.find('WARNING: ThreadSanitizer'):][:600].replace('\n', ' | '), 'step': 'c12_free', 'noreplay': True})
+        else:
+            ctx.incomplete.append('free-running ThreadSanitizer pass hit the time limit')
     ctx.stats['traces_validated_against_impl'] = ctx.stats.get('states', 0)
     ctx.infos = [i for i in ctx.infos if 'distinct terminal' in i][:20]
